@@ -1,17 +1,20 @@
+\* generated by spec/mkcfg.py
 SPECIFICATION Spec
 CONSTANTS
-  Senders = {1, 2}
+  Senders = {1}
   MaxSend = 2
   MaxTele = 0
   M = 4
   R = 2
   T = 4
   H = 100
-  MaxNow = 6
+  MaxNow = 5
   MaxNet = 2
-  DupBudget = 1
+  DupBudget = 0
   LossBudget = 1
   InjBudget = 1
+  AdvReq = FALSE
+  GwFaultBudget = 0
   MaxEpoch = 1
   EnableHB = FALSE
   EnableClose = FALSE
@@ -19,6 +22,7 @@ CONSTANTS
   Adversary = TRUE
   UseTCP = FALSE
   ChanUnderLock = TRUE
-INVARIANTS TypeOK OneInFlight MutexHeld BusNoDup
+  AckChanCheck = TRUE
+INVARIANTS TypeOK OneInFlight MutexHeld NoDupDelivery ClosedMeansClosed BusNoDup
 VIEW view
 CHECK_DEADLOCK FALSE
